@@ -4,6 +4,7 @@
 From Coq Require Import List Arith Bool Lia.
 Import ListNotations.
 From KV Require Import Model.Placement Model.Kfac Model.KfacComm Proofs.KfacCommP.
+From KV Require Import Model.Neox Model.Shard Model.NeoxComm Proofs.NeoxCommP.
 From KV Require Import Model.Coll Proofs.CollP.   (* last: CollP.steps / finished, not the record field Kfac.steps *)
 
 Section C03.
@@ -114,6 +115,45 @@ Proof.
   - vm_compute. reflexivity.
 Qed.
 
+
+(* ---- GPT-NeoX: the same on the pipe x data x model topology ----
+   What rank r issues during training with GPTNeoXKFACPreconditioner (the all_gathers of sharded inputs / output gradients
+   on its model-parallel group, the factor allreduces of the primaries on their data-parallel group and of everybody on
+   the stage group, the gather / reduce_scatter / broadcast of preconditioned_grad on the inverse worker's model-parallel
+   groups, the data-parallel gradient broadcast from src_grad_worker, the loop's own data-parallel allreduces) - decided
+   with the code's guards "am I the primary?", "is the inverse worker in my model-parallel group?" - is the projection
+   of one order that enumerates the groups, for every P, D, M, every layer table per stage and every history. *)
+Theorem neox_comm_proj : forall c layers h r, 0 < nD c -> 0 < nM c -> r < nW c ->
+  neox_issues c layers r h = mine (nmembers c) (neox_order c layers h) r.
+Proof. exact neox_comm_proj_l. Qed.
+
+Theorem neox_never_stalls : forall c layers h (P : nat -> list act), 0 < nD c -> 0 < nM c ->
+  (forall r, r < nW c -> issues (P r) = neox_issues c layers r h) ->
+  (forall r, r < nW c -> forall pre g k post, P r = pre ++ Wait g k :: post -> k < length (ong g (issues pre))) ->
+  forall s,
+    (~ finished (nW c) P s -> exists r, r < nW c /\ enabledb (nmembers c) P s r = true) /\
+    (exists s', steps (nmembers c) (nW c) P s s' /\ finished (nW c) P s').
+Proof.
+  intros c layers h P HD HM Hiss Hwait.
+  assert (Hmem : forall g r, In r (mem_of (nmembers c) g) -> r < nW c) by (intros g r; now apply nmembers_in_world).
+  assert (Hproj : forall r, r < nW c -> issues (P r) = mine (nmembers c) (neox_order c layers h) r).
+  { intros r Hr. rewrite (Hiss r Hr). now apply neox_comm_proj_l. }
+  intro s. split.
+  - exact (never_stuck (nmembers c) (nW c) P _ Hmem Hproj Hwait s).
+  - exact (run_to_completion (nmembers c) (nW c) P _ Hmem Hproj Hwait s).
+Qed.
+
+(* non-vacuity: data x model = 2 x 2, a row-parallel layer with bias whose inverse worker is rank 0: one
+   forward / backward / step; rank 3 = (d 1, m 1) is neither the primary of its model-parallel group nor in the
+   inverse worker's: it gathers its input shard, joins the stage allreduce of G and receives the gradient *)
+Example neox_issues_2x2 :
+  let c := {| nP := 1; nD := 2; nM := 2; nsym := false |} in
+  let ls := fun _ : nat => [ {| x_par := ParInput; x_in := 2; x_out := 3; x_bias := true; x_rows := 2; x_inv := 0 |} ] in
+  neox_issues c ls 3 [NFwd 0; NBwd 0; NStep] = [ins 2 3 2 0; ins 5 1 9 0; ins 4 2 6 2] /\
+  neox_issues c ls 0 [NFwd 0; NBwd 0; NStep] =
+    [ins 1 3 2 0; ins 3 1 9 0; ins 5 1 9 0; ins 1 3 3 0; ins 1 4 3 0; ins 1 2 3 1; ins 3 2 6 1].
+Proof. split; vm_compute; reflexivity. Qed.
+
 (* per-group matching WITHOUT one global order is not enough: two ranks, two
    groups, crossed waits; every group sees equal sequences on both members, yet
    the state (1, 1) is a deadlock — and the checker rejects the logs *)
@@ -144,3 +184,5 @@ Print Assumptions no_deadlock.
 Print Assumptions every_execution_completes.
 Print Assumptions kfac_comm_proj.
 Print Assumptions kfac_never_stalls.
+Print Assumptions neox_comm_proj.
+Print Assumptions neox_never_stalls.
